@@ -254,9 +254,11 @@ def run(chk: Check, tier: str):
         for o in outs:
             if not o.covered and not o.flagged and not o.skipped and not o.match.unevaluable:
                 chk.violation(f"{o.item.key}:uncovered", f"no reported path covers input {o.inp} of {o.item.key}", describe(o))
-    for it in items:
-        if it.hr and it.hr.paths and all(p.stuck for p in it.hr.paths):
-            stuck_progs += 1
+        del outs
+        for it in items[i : i + 120]:
+            if it.hr and it.hr.paths and all(p.stuck for p in it.hr.paths):
+                stuck_progs += 1
+            it.hr = None  # the halmos states of a batch are not needed any more (thousands of programs: tens of GB otherwise)
     for layout in ((), ("--storage-layout", "generic")):
         ps = probes()
         for it in ps:
